@@ -234,16 +234,17 @@ def _base(rng, consts, preds, stmts, n, pmax=3):
     return names
 
 
-def gen_cyclic(rng, negation=True, disjunction=True, max_choices=6):
+def gen_cyclic(rng, negation=True, disjunction=True, max_choices=6, light=False):
     """`_gen_cyclic` restricted to programs with at most `max_choices` probabilistic choices after instantiation (the
-    specification enumerates the worlds; the engine's work does not depend on the number of choices)."""
+    specification enumerates the worlds; the engine's work does not depend on the number of choices). light: no binary
+    recursive predicates over three constants (used by the quick streams)."""
     while True:
-        P = _gen_cyclic(rng, negation, disjunction)
+        P = _gen_cyclic(rng, negation, disjunction, light)
         if len(spine.reference(P)[1]) <= max_choices:
             return P
 
 
-def _gen_cyclic(rng, negation=True, disjunction=True):
+def _gen_cyclic(rng, negation=True, disjunction=True, light=False):
     """Small program whose derived predicates p0..pk (one level, same arity, 2-3 clauses each) call each other: mutual
     recursion through 1-3 predicates, body disjunctions, a negated base goal inside recursive clauses, complementary
     single-literal clauses."""
@@ -252,6 +253,8 @@ def _gen_cyclic(rng, negation=True, disjunction=True):
     base = _base(rng, consts, preds, stmts, rng.randint(2, 3), pmax=2)
     k = rng.choice([1, 2, 2, 3, 3])
     par = rng.choice([0, 0, 1, 1, 1, 2])
+    if light and par == 2 and len(consts) > 2:
+        par = 1     # (binary recursive predicates over 3 constants: cycle breaking of the ground formula can take minutes)
     der = ["p%d" % i for i in range(k)]
     for p in der:
         preds[p] = (par, 1)
@@ -425,7 +428,7 @@ def _cheap_work(item):
 
 
 def _cheap_work2(item):
-    return [(tag, ground_eval(src, cfg, timeout=2)) for tag, src, cfg in item]
+    return [(tag, ground_eval(src, cfg, timeout=1)) for tag, src, cfg in item]
 
 
 def _full_work(item):
